@@ -912,27 +912,37 @@ def signature(case, clause, obs):
 META = {
     'level_text': 'Proved on the Lean model (of the repaired code), for every configuration, fuel, schedule of start loop / poll '
                   'threads / clock and choice function of set.pop(): attached_ready, no_half_start, ready_after_first_round, '
-                  'poll_threads_stopped (whole runs); sorted_modules_topological, shutdown_phase_order, shutdown_order_whole_run '
-                  '(resolved attachments assumed acyclic); init_order_once_partial; multievent_wait_sound (MultiEvent at the '
-                  'granularity of its primitives); acyclicB_iff.  Start-up faults (any exception in write_<p>, initialReads, '
-                  'first polls): write_faults_lose_no_write (writeInitParams hands every configured value to its write method '
-                  'whatever any of them raises), startup_sequence_complete, no_write_after_first_poll (FULL: no configured value '
-                  'is written after the first poll of its module - every schedule, any faults; uses the proved invariant '
-                  'startup_groupsOk: no module is registered twice for polling), writes_before_first_poll_partial (exactly once and '
-                  'before the first poll of the module, ANY faults - communication failures in initial reads / first polls '
-                  'included: the repaired __pollThread calls writeInitParams once more behind a start-up sequence that was broken '
-                  'off; comm_failure_writes_made_up, unrepaired_prologue_skips_writes, repair_changes_only_broken_off_rounds).  '
-                  'NOT proved, kept as statements: init_order_once (full), bad_attachment_reported first half, '
-                  'writes_before_first_poll against the Spec\'s module list (missing: the link between the configuration and '
-                  'the module objects / poll thread membership), shutdown_order against the declared attachments; for these '
-                  'the evidence is differential: the real Server._processCfg + '
+                  'poll_threads_stopped (whole runs); hooks_at_most_once (FULL: in every life of a node - rejected ones, failing '
+                  'early / late initialisation, bad attachments, cycles included - earlyInit, initModule and startModule of every '
+                  'module run at most once and in that order); init_order_once_of_up (the clause InitOrderOnce itself for every '
+                  'node that came up: every module of the node exactly one earlyInit, initModule, startModule, in that order) and '
+                  'declared_modules_exist - via core_nothing_created_late (no module is created after the creation loop of a node '
+                  'that comes up); sorted_modules_topological, shutdown_phase_order, shutdown_order_whole_run (resolved attachments '
+                  'assumed acyclic); multievent_wait_sound (MultiEvent at the granularity of its primitives); acyclicB_iff.  '
+                  'Start values: handle_writes_registers_start_values (Module._handle_writes registers exactly the configured start '
+                  'values - value of the configuration, else value of the declaration - whatever the default is), '
+                  'writes_before_first_poll (FULL against the module list of the configuration, Pinatas static: exactly once and '
+                  'never after the first poll of the module, every schedule, ANY faults in write_<p>, initialReads, first polls, '
+                  'communication failures included) and start_values_handed_over (the value handed to write_<p> is the configured '
+                  'start value) - the former hypothesis Linked is discharged by configuration_linked (invariant LI of get_module / '
+                  'create_modules: every module object carries the parameters of its description, a module with something to poll '
+                  'or to write is registered with a poll thread that is started); write_faults_lose_no_write, '
+                  'startup_sequence_complete, no_write_after_first_poll, comm_failure_writes_made_up, '
+                  'unrepaired_prologue_skips_writes, repair_changes_only_broken_off_rounds; rejected_parameter_reported (a '
+                  'configured value that is not of the datatype / a missing required value makes the node report an error).  '
+                  'NOT proved, kept as statements: init_order_once_statement (missing: a clean configuration produces no error; '
+                  'existence of Pinata products and automatic communicators), bad_attachment_reported first half, shutdown_order '
+                  'against the declared attachments, writes_before_first_poll_statement without the hypothesis StaticPinatas; for '
+                  'these the evidence is differential: the real Server._processCfg + '
                   'SecNode.shutdown_modules run with instrumented module classes (fault injection included) under the '
                   'deterministic scheduler on all attachment graphs up to 4 modules (thorough: all DAGs on 5 + sampled cyclic '
-                  'graphs), the model predicts every log exactly, and the Lean monitors judge every implementation log.',
+                  'graphs) and on every declaration x configuration of a parameter, the model predicts every log and every value '
+                  'handed to a write method exactly, and the Lean monitors judge every implementation log.',
     'level_note': 'Trusted: Lean kernel + axioms propext/Classical.choice/Quot.sound; vlib.sched (virtual clock, gated threads); '
                   'multievent.py is re-executed from source with the scheduler\'s threading/time; the instrumented classes log '
                   'before calling super(); injected faults are raised by the instrumented write_/initialReads/read_ methods '
-                  '(a communication failure is logged as part of the observation).',
+                  '(a communication failure is logged as part of the observation); the instrumented write_<p> records the value '
+                  'it is handed (after the conversion by the datatype in the generated wrapper).',
     'trusted': [
         'vlib.sched: gated real threads + virtual clock reproduce an admissible interleaving of the real threads',
         'the instrumented module classes (log, then super(), then the injected fault) do not change the lifecycle',
@@ -940,13 +950,20 @@ META = {
         'follow the protocol model for which multievent_wait_sound is proved',
     ],
     'modelled_not_verified': [
-        'Module.__init__ (property/parameter configuration) — only "mandatory attachment without value" is modelled',
+        'Module.__init__ - modelled: "mandatory attachment without value", and of the parameter configuration what '
+        '_handle_writes does with declared / configured default and value (writeDict, datatype mismatch of the configured value, '
+        'needscfg); not modelled: property configuration, limits, units, datatype properties given in the configuration, '
+        'the initial value the node reports for a parameter',
+        'a writeDict entry of a parameter without a write method of the driver is handed to the generated wrapper only: no event '
+        'is observed for it (it keeps the module in a poll thread: modelled and compared)',
         'the poll loop after the first polls (only the late writeInitParams and the first poll of each module in the main loop '
         'after a broken-off start-up sequence are modelled); reconnect callbacks',
         'Dispatcher, interfaces, daemonising, signal handling, restart',
     ],
-    'assumptions': ['Pinatas are declared statically and have no attachments of their own',
-                    'module names are distinct from the names of automatically created communicators',
+    'assumptions': ['Pinatas are declared statically and have no attachments of their own (hypothesis StaticPinatas of '
+                    'writes_before_first_poll / start_values_handed_over / rejected_parameter_reported)',
+                    'module names are distinct from the names of automatically created communicators; module names and parameter '
+                    'names are dictionary keys (Nodup hypotheses)',
                     'exceptions raised by drivers are Exception subclasses (no BaseException)'],
 }
 
